@@ -215,6 +215,30 @@ def _replay_hier(kind, custom_kws):
     return replay
 
 
+def _probe_hier_long():
+    """real stack: distances of 256 and more between the two families must reach linkage unchanged (no narrowing of the condensed vector)"""
+    import numpy as np
+    import pandas as pd
+    import scipy.cluster.hierarchy as hc
+    from pyrepseq import distance
+    from harness import common as hc_
+    seqs = ["C" * 260, "C" * 259 + "A", "C" * 4, "C" * 3 + "A", "C" * 70000][:4]
+    m = len(seqs)
+    dvec = np.array([float(hc_.lev(seqs[i], seqs[j])) for i in range(m) for j in range(i + 1, m)])      # independent DP oracle: 1, 256, 256, 257/255 ...
+    for kind, data, mult in (("list", list(seqs), 1), ("array", np.array(seqs), 1), ("beta", pd.DataFrame({"CDR3B": seqs}), 1),
+                             ("paired", pd.DataFrame({"CDR3A": seqs, "CDR3B": seqs}), 2)):
+        for kw in ({}, dict(linkage_kws=dict(method="single"), cluster_kws=dict(t=6 * mult, criterion="distance")),
+                   dict(linkage_kws=dict(method="complete"), cluster_kws=dict(t=300 * mult, criterion="distance"))):
+            linkage, cluster = distance.hierarchical_clustering(data, **kw)
+            wl = hc.linkage(dvec * mult, **kw.get("linkage_kws", dict(method="average", optimal_ordering=True)))
+            wc = hc.fcluster(wl, **kw.get("cluster_kws", dict(t=6, criterion="distance")))
+            if not (np.allclose(np.asarray(linkage, dtype=float), wl) and list(cluster) == list(wc)):
+                return False, (f"[long-sequence probe on the real library] hierarchical_clustering({kind} of ['C'*260, 'C'*259+'A', 'C'*4, 'C'*3+'A'], {kw}) "
+                               f"clusters {list(cluster)}, merge heights {np.asarray(linkage)[:, 2].tolist()}; SciPy on the true distances {dvec.tolist()}"
+                               f"{' (x2 for two chains)' if mult == 2 else ''}: clusters {list(wc)}, heights {wl[:, 2].tolist()}")
+    return True, "long-sequence probe ok"
+
+
 def conditions(tier):
     out = []
     T = tier == "thorough"
@@ -233,4 +257,7 @@ def conditions(tier):
                 continue
             out.append(Condition(f"C15/hierarchical/{kind}/" + ("partial_kws" if ck == "partial" else "custom_kws" if ck else "defaults"), _body_hier(kind, ck), _replay_hier(kind, ck),
                                  budget=120, models=M, bounds=f"hierarchical_clustering wiring, input kind {kind}"))
+    from harness import common as hc_
+    out.append(hc_.probe_condition("C15/probe/hierarchical/distances-of-256-and-more", "hierarchical_clustering on the real stack with pairwise distances 1, 255..257 (list, array, beta table, paired table; default, single and complete linkage) "
+                                   "against scipy linkage/fcluster of independently computed DP distances", _probe_hier_long))
     return out
